@@ -63,7 +63,7 @@ def run(ctx):
     ctx.rule("gate/serve-registered", "a registered repeater's request is answered only to its stored outbound address, the requester, or (requester ip, p2p port); never with the reject")
     ctx.rule("gate/registration", "a registration request creates/marks exactly the sender's repeater as registered and answers its outbound address")
     ctx.rule("gate/silent-otherwise", "unknown command types and idle packets produce no datagram and change no registration")
-    ctx.rule("registered/single-writer", "the registered attribute is written at exactly one call site (handle_registration) and by no patch dictionary")
+    ctx.rule("registered/single-writer", "the registered attribute is written at exactly one call site and by no patch dictionary")
     ctx.rule("rdac/own-key", "a datagram changes only the sender's entry of the step dictionary")
     ctx.rule("rdac/guarded-advance", "the step advances, and datagrams are sent, only on a path where the datagram matched a response constant; a non-matching datagram changes nothing")
     ctx.rule("rdac/reset", "a one-byte datagram in any step but 14 restarts the sender at step 1 with exactly the step-0 request; in step 14 the step never changes")
@@ -298,6 +298,8 @@ def single_writer(ctx):
                                 kv = None
                     if kv == attr_name:
                         patch_keys.append(fi.qualname)
-    ok = writers == [f"{PMOD}:P2PDatagramProtocol.handle_registration"] and not patch_keys and len(readers) >= 3
+    # exactly one call site writes the attribute, no patch dictionary names it, and it is read somewhere (how many gates read it, and
+    # what the writing function is called, is the implementation's business — the gate scenarios above decide the behaviour)
+    ok = len(writers) == 1 and not patch_keys and len(readers) >= 1
     ctx.ob("registered/single-writer", f"{PMOD}:P2PDatagramProtocol.STORAGE_ATTR_IS_REGISTERED", ok,
            f"writers {writers}, readers {len(readers)}, dictionaries naming the attribute {patch_keys}", pci.loc)
